@@ -271,6 +271,28 @@ fn to_r(m: Met, eps: f64) -> f64 {
     }
 }
 
+/// blocks of b >= 3 collinear points (spacing h) joined by single bridge points at distance 2h from both
+/// neighbouring block ends; with min_points 4 and a tolerance in (2h, 3h) the block ends are core points
+/// and every bridge is a border point contested by two clusters
+fn gen_bridged(r: &mut Sm64, n: usize, d: usize) -> (Vec<Vec<f64>>, usize, f64) {
+    let h = *r.pick(&[0.5, 1.0, 0.25]);
+    let mut pts: Vec<Vec<f64>> = Vec::new();
+    let mut t = 0.0;
+    let y = if d >= 2 { r.range(-3, 3) as f64 } else { 0.0 };
+    while pts.len() < n {
+        let b = 3 + r.below(3) as usize;
+        for k in 0..b {
+            pts.push(embed(&[t + h * k as f64, y], d));
+        }
+        t += h * (b - 1) as f64 + 2.0 * h;
+        pts.push(embed(&[t, y], d));
+        t += 2.0 * h;
+    }
+    pts.truncate(n);
+    r.shuffle(&mut pts);
+    (pts, 4, h * *r.pick(&[2.25, 2.5, 2.75]))
+}
+
 /// tolerance relative to the inter-point distances -> (eps, exact?, stream):
 ///  "between": strictly between two distinct distances with a relative margin (exact = true),
 ///  "border": equal to an inter-point distance (for L2: one whose square root is exact, so that the
@@ -331,6 +353,34 @@ fn pick_eps(r: &mut Sm64, m: Met, x: &[Vec<f64>], minpts: usize, want: &'static 
     (e, exact, "between")
 }
 
+/// inputs of past findings and of the unit tests, run first: (metric, min_points, tolerance, points, mode)
+fn corpus() -> Vec<(Met, usize, f64, Vec<Vec<f64>>, EpsMode)> {
+    let col = |v: &[f64]| -> Vec<Vec<f64>> { v.iter().map(|x| vec![*x]).collect() };
+    let mut c = Vec::new();
+    // F3: a point exactly on the radius (k-d tree used to include it)
+    c.push((Met::L2, 2, 1.0, vec![vec![0.0, 0.0], vec![1.0, 0.0]], EpsMode::Explicit));
+    c.push((Met::L2, 3, 5.0, vec![vec![0.0, 0.0], vec![3.0, 4.0], vec![0.0, 5.0], vec![5.0, 0.0], vec![-3.0, -4.0]], EpsMode::Explicit));
+    // F4: unsorted neighbour lists (linear scan) gave wrong OPTICS core distances
+    c.push((Met::L2, 3, f64::INFINITY, col(&[0.0, 10.0, 1.0, 9.0, 2.0, 3.5]), EpsMode::OpticsDefault));
+    c.push((Met::L2, 3, 4.0, col(&[0.0, 10.0, 1.0, 9.0, 2.0, 3.5]), EpsMode::Explicit));
+    // F24: neighbours listed before the first core point of their cluster
+    c.push((Met::L2, 3, 2.2, col(&[0.0, 1.0, 2.0, 3.0, 4.0, 5.0]), EpsMode::Explicit));
+    c.push((Met::L1, 3, 2.2, col(&[0.0, 1.5, 2.0, 3.5, 4.0, 9.0]), EpsMode::Explicit));
+    // F38 (ball tree bound rounded up): a point 1 ulp inside the range, n > leaf size
+    let mut f38: Vec<Vec<f64>> = Vec::new();
+    for k in 0..5 { f38.push(vec![38.75 + 2.0 * k as f64, 38.75 + 2.0 * k as f64, 0.0]); }
+    for k in 0..7 { f38.push(vec![2.0 * k as f64, -8.0, 0.0]); }
+    for k in 0..7 { f38.push(vec![23.75 + 2.0 * k as f64, -8.0, 0.0]); }
+    for k in 0..5 { f38.push(vec![21.0 + 0.25 * k as f64, 0.0, 0.0]); }
+    c.push((Met::L2, 4, (8.0f64).sqrt(), f38.clone(), EpsMode::Explicit));
+    c.push((Met::L2, 2, (8.0f64).sqrt(), f38, EpsMode::Explicit));
+    // the fixtures of the OPTICS unit tests
+    c.push((Met::L2, 3, 4.0, col(&[1.0, 2.0, 3.0, 10.0, 18.0, 18.0, 15.0, 2.0, 15.0, 18.0, 3.0, 100.0, 101.0]), EpsMode::Explicit));
+    c.push((Met::L2, 3, f64::INFINITY, col(&[1.0, 2.0, 3.0, 8.0, 8.0, 7.0, 2.0, 5.0, 6.0, 7.0, 8.0, 3.0]), EpsMode::OpticsDefault));
+    c.push((Met::L2, 4, f64::INFINITY, col(&[1.0, 2.0, 3.0]), EpsMode::OpticsDefault));
+    c
+}
+
 fn copt(x: &Option<f64>) -> String {
     match x {
         Some(v) => format!("Some {}", sf64(*v)),
@@ -357,7 +407,7 @@ fn main() {
     let args = parse_args();
     let mut rng = Sm64::new(args.seed);
     let thorough = args.tier == "thorough";
-    let ndatasets = if thorough { 5000 } else { 1000 };
+    let ndatasets = if thorough { 4000 } else { 800 };
     let maxn: u64 = if thorough { 48 } else { 30 };
     let mut out = Out::new(&args.out, args.shards, "C08.Corr", "case", args.only);
     let mets = [Met::L2, Met::L2, Met::L1, Met::Linf];
@@ -403,19 +453,29 @@ fn main() {
     }
 
     // ---- point sets ----
-    for ds_no in 0..ndatasets {
+    let corpus = corpus();
+    for ds_all in 0..(corpus.len() + ndatasets) {
         let mut r = rng.fork();
-        // the first datasets are the exhaustive-small part: every n in 0..=3, every family
+        let (fam, d, m, minpts, x, mode, eps, exact, stream): (u64, usize, Met, usize, Vec<Vec<f64>>, EpsMode, f64, bool, &'static str) =
+        if ds_all < corpus.len() {
+            let c = &corpus[ds_all];
+            let d = if c.3.is_empty() { 1 } else { c.3[0].len() };
+            (99, d, c.0, c.1, c.3.clone(), c.4, c.2, false, "corpus")
+        } else {
+        let ds_no = ds_all - corpus.len();
+        // the first datasets are the exhaustive-small part: every n in 0..=4, every family
         let small = ds_no < 40;
         let fam = if small { (ds_no % 8) as u64 } else { r.below(8) };
         let n = if small { (ds_no / 8) as usize % 5 } else if r.chance(0.15) { r.below(6) as usize } else { 4 + r.below(maxn - 3) as usize };
         let d = if r.chance(0.04) { 0 } else if r.chance(0.3) { 1 } else { 2 + r.below(2) as usize };
         let m = *r.pick(&mets);
         let minpts = 2 + r.below(if thorough { 6 } else { 4 }) as usize;
-        let x = gen_points(&mut r, fam, n, d);
-        let n = x.len();
+        let bridged = fam == 2 && d > 0 && n >= 7 && r.chance(0.5);
+        let (x, minpts, bridged_eps) = if bridged { gen_bridged(&mut r, n, d) } else { (gen_points(&mut r, fam, n, d), minpts, 0.0) };
         let sel = r.below(20);
-        let (mode, (eps, exact, stream)) = if fam == 7 && sel < 12 {
+        let (mode, (eps, exact, stream)) = if bridged {
+            (EpsMode::Explicit, (bridged_eps, true, "between"))
+        } else if fam == 7 && sel < 12 {
             (EpsMode::DbscanDefault, (1e-4, true, "dbscan_default"))
         } else if sel == 0 {
             (EpsMode::OpticsDefault, (f64::INFINITY, false, "optics_default"))
@@ -426,6 +486,9 @@ fn main() {
         } else {
             (EpsMode::Explicit, pick_eps(&mut r, m, &x, minpts, "between"))
         };
+        (fam, d, m, minpts, x, mode, eps, exact, stream)
+        };
+        let n = x.len();
         let xa = arr(&x, d);
         let mname = format!("{:?}", m);
         let desc = format!(
